@@ -90,6 +90,23 @@ func utf16Length(s string) int {
 	return len(utf16.Encode([]rune(s)))
 }
 
+// utf16Prefix returns the byte length of the longest prefix of s that consists
+// of whole code points and has at most pos UTF-16 code units, and the number of
+// code units in that prefix (pos, or pos-1 if pos falls inside a surrogate pair).
+func utf16Prefix(s string, pos int) (offset, units int) { //nolint:nonamedreturns
+	for i, chr := range s {
+		size := 1
+		if chr >= 0x10000 {
+			size = 2
+		}
+		if units+size > pos {
+			return i, units
+		}
+		units += size
+	}
+	return len(s), units
+}
+
 func builtinStringIndexOf(call FunctionCall) Value {
 	checkObjectCoercible(call.runtime, call.This)
 	value := call.This.string()
@@ -97,18 +114,30 @@ func builtinStringIndexOf(call FunctionCall) Value {
 	if 2 > len(call.ArgumentList) {
 		return intValue(indexRune(value, target))
 	}
+	// The position counts UTF-16 code units, value holds UTF-8 bytes.
 	start := toIntegerFloat(call.Argument(1))
+	length := utf16Length(value)
 	if 0 > start {
 		start = 0
-	} else if start >= float64(len(value)) {
+	} else if start >= float64(length) {
 		if target == "" {
-			return intValue(len(value))
+			return intValue(length)
 		}
 		return intValue(-1)
 	}
-	index := indexRune(value[int(start):], target)
+	if target == "" {
+		return intValue(int(start))
+	}
+	offset, position := utf16Prefix(value, int(start))
+	if position < int(start) {
+		// start is the second half of a surrogate pair, no match can begin there.
+		_, size := utf8.DecodeRuneInString(value[offset:])
+		offset += size
+		position += 2
+	}
+	index := indexRune(value[offset:], target)
 	if index >= 0 {
-		index += int(start)
+		index += position
 	}
 	return intValue(index)
 }
